@@ -1736,10 +1736,13 @@ def lowprec_probe(ctx: Ctx):
                         if okind == "alg" else ([U.QSL[name]] + ([U.TSL[name]] if U.TSL[name] is not None else []) + ([slice(U.SIDX[name], U.SIDX[name] + 1)] if U.SIDX[name] is not None else []))
                     tin = tin_of(kind, name, T)
                     worst = 0.0
+                    sig_sl = slice(U.SIGIDX[name], U.SIGIDX[name] + 1) if (okind == "alg" and U.SIGIDX[name] is not None) else None
                     for sl in sls:
                         sc = b[:, sl].abs().amax(-1, keepdim=True).clamp(min=1e-3)
                         if tin is not None and sl == (U.TAUSL[name] if okind == "alg" else U.TSL[name]):
                             sc = torch.maximum(sc, tin)
+                        if sl == sig_sl:        # a log-scale is accurate relative to the SCALE: absolute eps·max(1, |σ|)
+                            sc = sc.clamp(min=1.0)
                         worst = max(worst, float(((a[:, sl] - b[:, sl]).abs() / (64 * eps_n * sc)).max()))
                     if not worst <= 1.0:
                         ctx.fail(case, f"dtype {name}: {label} in {dname} differs from the float64 evaluation of the same input by {worst:.3g}×64 eps({dname})")
